@@ -2,9 +2,10 @@
 Shared by C11/C14 (builder-F): populate a REAL allmydata.mutable.servermap.ServerMap from a few symbolic
 version descriptors, and the independent model of what that map contains.
 
-A version descriptor is (seqnum, root-hash rank, k, distinct share count, has-duplicate):
+A version descriptor is (seqnum, root-hash rank, k, distinct share count, extra copies):
   * shares 0..count-1 of the version sit on that version's own server (a (server, shnum) slot holds one version),
-  * `dup` adds a second copy of share 0 on another server (must not count as another distinct share),
+  * `extra copies` = d further copies of share 0, each on another server (copies must not count as distinct shares:
+    a version with fewer than k DISTINCT share numbers is unrecoverable however many copies exist),
   * two descriptors with equal (seqnum, rank) denote the SAME version (same signed prefix, hence same k):
     their shares merge.
 Everything that ends up inside a verinfo tuple is hashed by ServerMap (dict key), i.e. realised by
@@ -68,7 +69,7 @@ def descriptors_ok(nv, descs, B):
                 return False
         elif not (k0 + B["c_lo"] <= c <= k0 + B["c_hi"]):
             return False
-        if d and not B.get("dups", True):
+        if not (0 <= d <= (B.get("dmax", 1) if B.get("dups", True) else 0)):
             return False
     return True
 
@@ -86,10 +87,11 @@ def populate(nv, descs, servermap=None, n=N_TOTAL):
             sm.add_new_share(srv, sh, v, 1000 + i)
             entry[1].add(sh)
             entry[2].append((srv, sh))
-        if d and c >= 1:
-            extra = Srv("d%d" % i)
-            sm.add_new_share(extra, 0, v, 2000 + i)
-            entry[2].append((extra, 0))
+        if c >= 1:
+            for x in range(d):          # d further COPIES of share 0 on other servers: copies are not distinct shares
+                extra = Srv("d%d_%d" % (i, x))
+                sm.add_new_share(extra, 0, v, 2000 + i)
+                entry[2].append((extra, 0))
     for v in list(model):
         if not model[v][2]:
             del model[v]          # a version without shares is not in the map at all
@@ -129,9 +131,10 @@ def concrete(descs, nv, B):
                 c = pin_in(c, B["cs"])
             else:
                 c = pin(c, B["k"] + B["c_lo"], B["k"] + B["c_hi"])
-            out.append((pin(s, 1, B["seq_max"]), pin(r, 0, B["rank_max"]), B["k"], c, pinb(d)))
+            out.append((pin(s, 1, B["seq_max"]), pin(r, 0, B["rank_max"]), B["k"], c,
+                        pin(d, 0, B.get("dmax", 1)) if B.get("dups", True) else 0))
         else:
-            out.append((0, 0, 0, 0, False))
+            out.append((0, 0, 0, 0, 0))
     return out
 
 
